@@ -124,7 +124,7 @@ class BaseWorklist(list):
 
         if not scheme in {1, 2, 3, 4}:
             raise ValueError("scheme must be either 1, 2, 3 or 4")
-        self.append(f"W{scheme};")
+        self.append(f"W{int(scheme)};")
         return
 
     def decontaminate(self) -> None:
